@@ -7,14 +7,42 @@ open List
 
 def closeCount (p : Port) : Nat := p.log.count .closed
 
-theorem rawSend_fold (ids : List Nat) (p : Port) (hk : p.kind = .dev) :
-    (ids.foldl Port.rawSend p) = { p with log := p.log ++ ids.map LogEv.sent } := by
-  induction ids generalizing p with
-  | nil => simp
+/-- how many of `n` `_send` calls succeed before the device fails -/
+def sentCount (p : Port) (n : Nat) : Nat :=
+  match p.budget with
+  | none => n
+  | some b => min b n
+
+/-- the reset loop sends a prefix of the reset messages: all of them on a healthy device, and
+    exactly as many as the device still accepts otherwise -/
+theorem resetSends_spec (ids : List Nat) : ∀ (p : Port), p.kind = .dev →
+    Port.resetSends ids p =
+      { p with log := p.log ++ (ids.take (sentCount p ids.length)).map LogEv.sent,
+               budget := p.budget.map (· - sentCount p ids.length) } := by
+  induction ids with
+  | nil => intro p _; cases p with | mk k c q a sc l sl b => cases b <;> simp [Port.resetSends, sentCount]
   | cons i r ih =>
-    have hk' : (p.rawSend i).kind = .dev := by simp [Port.rawSend, hk]
-    simp only [foldl_cons, ih _ hk']
-    simp [Port.rawSend, hk]
+    intro p hk
+    cases p with
+    | mk k c q a sc l sl b =>
+      simp only at hk; subst hk
+      cases b with
+      | none =>
+        have := ih (Port.rawSend ⟨.dev, c, q, a, sc, l, sl, none⟩ i) rfl
+        simp only [Port.resetSends, Port.sendFails, Bool.false_eq_true, if_false, this]
+        simp [Port.rawSend, sentCount]
+      | some b =>
+        cases b with
+        | zero => simp [Port.resetSends, Port.sendFails, sentCount]
+        | succ b =>
+          have := ih (Port.rawSend ⟨.dev, c, q, a, sc, l, sl, some (b + 1)⟩ i) rfl
+          simp only [Port.resetSends, Port.sendFails, Bool.false_eq_true, if_false, this]
+          simp only [Port.rawSend, sentCount, Option.map_some, Nat.add_sub_cancel, length_cons]
+          have e : min (b + 1) (r.length + 1) = min b r.length + 1 := by omega
+          rw [e]
+          simp only [take_succ_cons, map_cons, append_assoc, singleton_append, Option.map_some]
+          congr 2
+          omega
 
 theorem close_fields (p : Port) (hk : p.kind = .dev) :
     p.close.queue = p.queue ∧ p.close.sleeps = p.sleeps ∧ p.close.script = p.script ∧ p.close.kind = p.kind := by
@@ -22,7 +50,7 @@ theorem close_fields (p : Port) (hk : p.kind = .dev) :
   by_cases hc : p.closed = true
   · simp [hc]
   · by_cases ha : p.autoreset = true
-    · simp [hc, ha, rawSend_fold resetIds p hk]
+    · simp [hc, ha, resetSends_spec resetIds p hk]
     · simp [hc, ha]
 
 theorem close_sleeps_any (p : Port) : p.close.sleeps = p.sleeps := by
@@ -31,10 +59,14 @@ theorem close_sleeps_any (p : Port) : p.close.sleeps = p.sleeps := by
   · simp [hc]
   · by_cases ha : p.autoreset = true
     · simp only [hc, ha, Bool.false_eq_true, if_false, if_true]
-      have : ∀ (ids : List Nat) (q : Port), (ids.foldl Port.rawSend q).sleeps = q.sleeps := by
+      have : ∀ (ids : List Nat) (q : Port), (Port.resetSends ids q).sleeps = q.sleeps := by
         intro ids; induction ids with
         | nil => intro q; rfl
-        | cons i r ih => intro q; simp only [foldl_cons, ih]; cases hk : q.kind <;> simp [Port.rawSend, hk]
+        | cons i r ih =>
+          intro q; simp only [Port.resetSends]
+          split
+          · rfl
+          · rw [ih]; cases hk : q.kind <;> simp [Port.rawSend, hk]
       exact this _ _
     · simp [hc, ha]
 
@@ -57,14 +89,41 @@ theorem C11_close_idem (p : Port) : p.close.close = p.close := by
   by_cases h : p.closed = true <;> simp [h]
 
 /-- closing an open device port releases the device exactly once, after sending the 32 reset
-    messages — once — when autoreset is set -/
+    messages — once — when autoreset is set; if the device stops accepting messages part-way
+    (every further `_send` raises OSError) the messages it still accepted are sent, in order, and
+    the device is released all the same -/
 theorem C11_close_log (p : Port) (hk : p.kind = .dev) (ho : p.closed = false) :
     p.close.closed = true ∧
-    p.close.log = p.log ++ (if p.autoreset then resetIds.map LogEv.sent else []) ++ [.closed] := by
+    p.close.log = p.log ++ (if p.autoreset then (resetIds.take (sentCount p 32)).map LogEv.sent else []) ++ [.closed] := by
   unfold Port.close
   by_cases ha : p.autoreset = true
-  · simp [ho, ha, rawSend_fold resetIds p hk]
+  · have hl : resetIds.length = 32 := by simp [resetIds]
+    simp [ho, ha, resetSends_spec resetIds p hk, hl]
   · simp [ho, ha]
+
+/-- on a healthy device all 32 reset messages are sent -/
+theorem C11_close_log_healthy (p : Port) (hk : p.kind = .dev) (ho : p.closed = false) (hb : p.budget = none) :
+    p.close.log = p.log ++ (if p.autoreset then resetIds.map LogEv.sent else []) ++ [.closed] := by
+  have hl : resetIds.length = 32 := by simp [resetIds]
+  rw [(C11_close_log p hk ho).2]
+  simp only [sentCount, hb]
+  rw [← hl, take_length]
+
+/-- whatever the device does to `_send`, the release reaches it exactly once per close of an open port -/
+theorem C11_release_once (p : Port) (hk : p.kind = .dev) (ho : p.closed = false) :
+    closeCount p.close = closeCount p + 1 ∧ closeCount p.close.close = closeCount p + 1 := by
+  rw [C11_close_idem]
+  have h := (C11_close_log p hk ho).2
+  simp only [closeCount, h, count_append]
+  by_cases ha : p.autoreset = true
+  · simp only [ha, if_true]
+    have : count LogEv.closed (map LogEv.sent (take (sentCount p 32) resetIds)) = 0 := by
+      apply count_eq_zero.mpr
+      intro hm
+      obtain ⟨x, _, hx⟩ := mem_map.mp hm
+      cases hx
+    rw [this]; simp
+  · simp [ha]
 
 /-- after close, `send` raises ValueError and nothing reaches the device -/
 theorem C11_send_after_close (p : Port) (h : p.closed = true) (id : Nat) :
@@ -189,7 +248,7 @@ theorem recvLoop_arrival (p : Port) (f : Nat) (m : Nat) (arr : List Nat) (c : Bo
     simp only [hk, hs, hq, nil_append]
     by_cases hc : c = true
     · subst hc
-      have h1 := (close_fields (⟨.dev, p.closed, m :: arr, p.autoreset, S, p.log, p.sleeps⟩ : Port) rfl).1
+      have h1 := (close_fields (⟨.dev, p.closed, m :: arr, p.autoreset, S, p.log, p.sleeps, p.budget⟩ : Port) rfl).1
       rw [if_pos rfl]; exact h1
     · simp [hc]
   have hsl := envStep_sleeps p
